@@ -25,8 +25,8 @@ RULE = ("Hypothesis: annotation from the C01 grammar (depth<=4), with probabilit
         "lists, random blanks). Non-trivial = rewrite changed the text and the annotation has >=1 group; class "
         "'dup' = contains a duplicated tag/group.")
 ASSUMPTIONS = ["values/extensions are carried verbatim (their letter case is not varied)",
-               "text-level delimiter faults (unbalanced parentheses, empty tags) are not rewritten: their position "
-               "is their meaning; they are covered by C01/C02"]
+               "text-level delimiter faults (unbalanced parentheses, empty tags, missing commas) are only re-spaced, "
+               "not re-ordered or re-spelled: their position is their meaning"]
 
 QUICK = ["8.3.0", "score_2.0.0", "8.1.0"]
 ALL = hedenv.BUNDLED
@@ -86,6 +86,49 @@ def oracle(case):
     return out
 
 
+# ------------------------------------------------------------------------------------------------------------
+# blanks around delimiters of annotations with a delimiter fault (empty tag, missing comma, stray parenthesis)
+def tokens_of(text):
+    out, cur = [], ""
+    for ch in text:
+        if ch in ",()":
+            out.append(cur.strip(" "))
+            out.append(ch)
+            cur = ""
+        else:
+            cur += ch
+    out.append(cur.strip(" "))
+    return out
+
+
+def spacing_strategy(versions):
+    @st.composite
+    def strat(draw):
+        start = draw(st.integers(0, len(gen_hed.TEXT_MUTATIONS) - 1))
+        v = draw(st.sampled_from(versions))
+        ann = draw(gen_hed.annotation(v, allow_placeholder=False, max_depth=2, with_defs=False, specials=False))
+        kinds = [k for k in gen_hed.TEXT_MUTATIONS if k != "forbidden_char"]
+        mut = draw(gen_hed.mutated(ann, kinds=kinds, start=start))
+        before = mut["text"]
+        sp = st.sampled_from(["", " ", "  "])
+        after = ""
+        for tok in tokens_of(before):
+            if tok in (",", "(", ")"):
+                after += draw(sp) + tok + draw(sp)
+            else:
+                after += tok
+        return {"version": v, "defs": [], "allow_placeholders": False, "before": before, "after": after,
+                "mutation": mut["mutation"], "depth": 1}
+    return strat()
+
+
+def oracle_spacing(case):
+    out = oracle(case)
+    out.classes = ("delimiter-fault:" + str(case["mutation"]),)
+    out.nontrivial = case["before"] != case["after"]
+    return out
+
+
 def warmup(tier):
     for v in (QUICK if tier == "quick" else ALL):
         hedenv.schema(v)
@@ -94,4 +137,6 @@ def warmup(tier):
 
 def parts(tier):
     versions = QUICK if tier == "quick" else ALL
-    return [Part("rewrite", oracle, strategy=strategy(versions), n=3000 if tier == "quick" else 96000)]
+    return [Part("rewrite", oracle, strategy=strategy(versions), n=3000 if tier == "quick" else 96000),
+            Part("spacing-of-delimiter-faults", oracle_spacing, strategy=spacing_strategy(versions),
+                 n=800 if tier == "quick" else 24000)]
